@@ -92,6 +92,8 @@ def run(ctx):
     life.mc(ctx, dict(base, MaxOps=5 if q else 6), tag="sequential cursors")
     behs = life.gen(ctx, dict(base, RS="<- RS_3", A="{0}"), 3 if q else 4, "all histories of Return/Returns/When/Call/Reset")
     behs += life.sim(ctx, base, 200 if q else 3000, 14, "random call strings over default + 2 conditions")
+    # sequences extended between calls (a further Returns on the same configuration), also after calls beyond the old end
+    behs += life.gen(ctx, dict(base, RS="<- RS_EXT", A="{0}", Ops="<- ExtOps"), 7 if q else 8, "all histories of Returns/Call: extension at every point")
     life.replay(ctx, "life-func" if q else "life", behs)
     # concurrent: every interleaving of the atomic steps, replayed through gates
     binary = drv_binary(ctx)
